@@ -28,7 +28,7 @@ def main():
     if os.path.isdir(f"{src}/demo{i}"):
         shutil.copytree(f"{src}/demo{i}", f"{dst}/demo", ignore=shutil.ignore_patterns("target"))
     meta = json.load(open(f"{src}/meta{i}.json"))
-    demo_cmd = sys.argv[3] if len(sys.argv) > 3 else "sh demo/run.sh {wt}"
+    demo_cmd = sys.argv[3] if len(sys.argv) > 3 else "bash demo/run.sh {wt}"
     demo_cmd = demo_cmd.replace("{wt}", wt)
     log = []
     rc, out = sh("git checkout -- . && git status --short", cwd=wt)
